@@ -900,6 +900,64 @@ func runC16(c *Ctx) {
 	if !c.R.Anchor(mm != nil, "(*License).MultipleMatch") || !c.R.Anchor(wct != nil, "(*License).WithinConfidenceThreshold") {
 		return
 	}
+	// the function that builds the list: MultipleMatch itself, or the helper of the package whose result it returns
+	hasAppend := func(f *ssa.Function) bool {
+		for _, call := range core.CallsIn(f) {
+			if b, ok := call.Common().Value.(*ssa.Builtin); ok && b.Name() == "append" && strings.HasSuffix(core.TypeName(call.Common().Args[0].Type()), "stringclassifier.Matches") {
+				return true
+			}
+		}
+		return false
+	}
+	if !hasAppend(mm) {
+		for _, b := range mm.Blocks {
+			if ret, ok := b.Instrs[len(b.Instrs)-1].(*ssa.Return); ok && len(ret.Results) == 1 {
+				if cl, isCall := core.Unspill(ret.Results[0]).(*ssa.Call); isCall {
+					if h := cl.Call.StaticCallee(); h != nil && core.FuncPkgPath(h) == core.RootMod && hasAppend(h) {
+						mm = h
+					}
+				}
+			}
+		}
+	}
+	// a helper that answers true only where WithinConfidenceThreshold(v.Confidence) held for its parameter v
+	acceptsOnlyWithin := func(g *ssa.Function, argIdx int) bool {
+		if g == nil || len(g.Blocks) == 0 || argIdx >= len(g.Params) {
+			return false
+		}
+		prm := g.Params[argIdx]
+		nTrue := 0
+		for _, b := range g.Blocks {
+			ret, ok := b.Instrs[len(b.Instrs)-1].(*ssa.Return)
+			if !ok || len(ret.Results) != 1 {
+				continue
+			}
+			k, isK := ret.Results[0].(*ssa.Const)
+			if !isK {
+				return false
+			}
+			if k.Value == nil || k.Value.ExactString() != "true" {
+				continue
+			}
+			nTrue++
+			okT := false
+			for _, fct := range core.FactsAt(b) {
+				cl, isCall := fct.Cond.(*ssa.Call)
+				if !isCall || !fct.Truth || cl.Call.StaticCallee() != wct {
+					continue
+				}
+				if ld, isLd := cl.Call.Args[1].(*ssa.UnOp); isLd {
+					if fa, isFA := ld.X.(*ssa.FieldAddr); isFA && core.FieldName(fa) == "Confidence" && core.Unspill(fa.X) == ssa.Value(prm) {
+						okT = true
+					}
+				}
+			}
+			if !okT {
+				return false
+			}
+		}
+		return nTrue > 0
+	}
 	// every append to the returned slice is dominated by WithinConfidenceThreshold(v.Confidence) == true
 	n := 0
 	for _, call := range core.CallsIn(mm) {
@@ -919,6 +977,16 @@ func runC16(c *Ctx) {
 		ok = false
 		for _, fct := range core.FactsAtInstr(call) {
 			cl, isCall := fct.Cond.(*ssa.Call)
+			if isCall && fct.Truth && cl.Call.StaticCallee() != wct {
+				// a helper of the package that accepts the element only within the threshold
+				if g := cl.Call.StaticCallee(); g != nil && core.FuncPkgPath(g) == core.RootMod {
+					for k, a := range cl.Call.Args {
+						if core.Unspill(a) == core.Unspill(el) && acceptsOnlyWithin(g, k) {
+							ok = true
+						}
+					}
+				}
+			}
 			if !isCall || !fct.Truth || cl.Call.StaticCallee() != wct {
 				continue
 			}
